@@ -9,9 +9,20 @@ ID=${1:-}
 TIER=${2:-${VERIF_TIER:-quick}}
 mkdir -p bin evidence
 
+# Development aid: VERIF_REPO=<scratch worktree> builds the driver against that tree instead of /repo
+# (and VERIF_OUT=<dir> keeps its evidence/replays away from the committed ones). Registered commands never set these.
+MODFLAG=""
+SUF=""
+if [ -n "${VERIF_REPO:-}" ]; then
+  SUF="-alt$$"
+  sed "s#=> /repo#=> $VERIF_REPO#" harness/go.mod > "bin/alt.$$.mod"; cp harness/go.sum "bin/alt.$$.sum"
+  MODFLAG="-modfile=$(pwd)/bin/alt.$$.mod"
+  trap 'rm -f bin/alt.$$.mod bin/alt.$$.sum bin/vdriver$SUF bin/vdriver-race$SUF' EXIT
+fi
+
 build() {  # $1 = output name, rest = extra go build flags
   local out=$1; shift
-  ( cd harness && go build -tags verif "$@" -o "../bin/$out.$$" ./cmd/vdriver ) >bin/build.$$.log 2>&1
+  ( cd harness && go build $MODFLAG -tags verif "$@" -o "../bin/$out.$$" ./cmd/vdriver ) >bin/build.$$.log 2>&1
   local rc=$?
   if [ $rc -ne 0 ]; then
     echo "BUILD FAILED (driver against /repo working tree):"; cat bin/build.$$.log; rm -f bin/build.$$.log "bin/$out.$$"; return 2
@@ -25,15 +36,15 @@ case "$ID" in
     build vdriver || exit 2
     echo "setup ok"; exit 0 ;;
   replay)
-    build vdriver || exit 2
-    exec bin/vdriver replay "$TIER" ;;
+    build vdriver$SUF || exit 2
+    bin/vdriver$SUF replay "$TIER"; exit $? ;;
   C20)
-    build vdriver-race -race || exit 2
-    build vdriver || exit 2
-    exec bin/vdriver C20 "$TIER" ;;
+    build vdriver-race$SUF -race || exit 2
+    build vdriver$SUF || exit 2
+    bin/vdriver$SUF C20 "$TIER"; exit $? ;;
   C*)
-    build vdriver || exit 2
-    exec bin/vdriver "$ID" "$TIER" ;;
+    build vdriver$SUF || exit 2
+    bin/vdriver$SUF "$ID" "$TIER"; exit $? ;;
   *)
     echo "usage: ./run.sh <C01..C20|setup|replay> [quick|thorough|<replay dir>]"; exit 2 ;;
 esac
